@@ -11,7 +11,10 @@ RULE = ("Hypothesis programs (genx.calls_case): an exported caller plus 1-4 help
         "Arguments are scalars, float2/float3/int2 vectors and float3x3 matrices. Oracle: reference interpreter with "
         "explicit frames and value copies (returned value, globals, host argument objects untouched). A second part "
         "(vf/genmod.py) puts callees into imported modules, with overload sets split between importer and imported "
-        "module, and compares the linked program with the same functions compiled as one module. Non-trivial = "
+        "module, and compares the linked program with the same functions compiled as one module. A third part is "
+        "metamorphic: a chain of nested calls f(g(h(e))) (int/float parameters and results, so arguments are converted "
+        "at each boundary) must behave exactly like the same calls made one after the other through locals of the "
+        "result types. Non-trivial = "
         "the executed trace contains a callee writing one of its parameters followed by the caller reading one of its "
         "own parameters, or recursion depth >= 2; distinct by (source, input).")
 ASSUMPTIONS = [
@@ -47,8 +50,78 @@ def across_modules(ctx, case):
         ctx.label("overload-set-split-over-modules")
 
 
+# -- metamorphic: naming a nested call by a local of its result type does not change anything -----------------
+
+HELPERS = {
+    # name: (parameter type, result type, body)
+    "ii": ("int", "int", "return n * 2 + 1 ;"), "if_": ("int", "float", "return n * 0.5 ;"),
+    "ff": ("float", "float", "return n * 1.5 - 0.25 ;"), "fi": ("float", "int", "if ( n > 2.0 ) { return 7 ; } return 3 ;"),
+    "iu": ("int", "int", "n = n + 3 ; return n - 1 ;"), "fu": ("float", "float", "n = n / 4.0 ; return n ;"),
+}
+
+
+class NestCase:
+    def __init__(self, chain, arg, inputs):
+        self.chain, self.arg, self.inputs = chain, arg, inputs   # chain: helper names, outermost first
+
+    def sources(self):
+        pre = "".join("function %s ( %s n ) -> %s { %s }\n" % (nm, HELPERS[nm][0], HELPERS[nm][1], HELPERS[nm][2])
+                      for nm in sorted(set(self.chain)))
+        ret = HELPERS[self.chain[0]][1]
+        nested = self.arg
+        for nm in reversed(self.chain):
+            nested = "%s ( %s )" % (nm, nested)
+        a = pre + "export function f ( int a , float x ) -> %s { return %s ; }\n" % (ret, nested)
+        stmts, cur = [], self.arg
+        for k, nm in enumerate(reversed(self.chain)):
+            stmts.append("%s t%d = %s ( %s ) ;" % (HELPERS[nm][1], k, nm, cur))
+            cur = "t%d" % k
+        b = pre + "export function f ( int a , float x ) -> %s { %s return %s ; }\n" % (ret, " ".join(stmts), cur)
+        return a, b
+
+    def show(self):
+        a, b = self.sources()
+        return "// nested:\n%s// hoisted:\n%s// inputs=%r" % (a, b, self.inputs)
+
+
+def nest_cases():
+    from hypothesis import strategies as st
+    return st.builds(NestCase, st.lists(st.sampled_from(sorted(HELPERS)), min_size=2, max_size=4).map(tuple),
+                     st.sampled_from(["a", "x", "a + 1", "x * 0.5", "x + a", "2.75", "3"]),
+                     st.lists(st.tuples(st.integers(-9, 9), st.integers(-40, 40).map(lambda n: n / 8.0)), min_size=2, max_size=3))
+
+
+def nest_check(ctx, case):
+    from .. import adapter
+    from ..compare import exact
+    a, b = case.sources()
+    ctx.count()
+    ca, cb = adapter.compile_src(a), adapter.compile_src(b)
+    if ca.ok != cb.ok:
+        ctx.fail("nested-vs-hoisted|accept-vs-reject", "one of the two spellings is rejected (nested: %s, hoisted: %s)\n%s" % (
+            ca.why() if not ca.ok else "accepted", cb.why() if not cb.ok else "accepted", case.show()), case)
+        return
+    if not ca.ok:
+        ctx.discard("both-rejected")
+        return
+    pa, pb = adapter.link([ca.ir]), adapter.link([cb.ir])
+    conv = any(HELPERS[o][0] != (HELPERS[i][1]) for o, i in zip(case.chain, case.chain[1:]))
+    ctx.label("nested-call-with-conversion" if conv else "nested-call")
+    for ai, xi in case.inputs:
+        ra = adapter.invoke(adapter.new_vm(pa), "f", {"a": ai, "x": xi}, budget=20000)
+        rb = adapter.invoke(adapter.new_vm(pb), "f", {"a": ai, "x": xi}, budget=20000)
+        if ra.ok != rb.ok or (ra.ok and not exact(ra.value, rb.value)):
+            ctx.fail("nested-vs-hoisted|value", "f(a=%r, x=%r): nested calls give %r, the same calls through locals give %r\n%s" % (
+                ai, xi, ra.value if ra.ok else ra.exc, rb.value if rb.ok else rb.exc, case.show()), case)
+            return
+        if ra.ok:
+            ctx.nontrivial((a, ai, xi))
+
+
 def run(R):
-    R.hyp("calls-across-modules", genmod.modules_case(), across_modules, examples=R.pick(60, 1200))
+    R.hyp("nested-calls-hoisted", nest_cases, nest_check, examples=R.pick(60, 1500))
+    R.require("nested-call-with-conversion")
+    R.hyp("calls-across-modules", genmod.modules_case(), across_modules, examples=R.pick(60, 300))
     R.require("overload-set-split-over-modules")
     R.hyp("calls", genx.calls_case(), check, examples=R.pick(250, 5000), shrink="ast")
     for l in NOTES[:5] + ["program-with-overloads", "program-with-recursion"]:
